@@ -46,6 +46,22 @@ def biased_spec(rng, thorough):
                 for f in spec["formats"]:
                     if f["number"] in "RAG" and f["id"] in (r.get("format") or []) and rng.random() < 0.7:
                         r["format"] = [k for k in r["format"] if k != f["id"]]
+        # bias 2: a record that carries MORE values for a Number=R/A field than the file's widest record has alleles
+        # (htslib accepts such records; the store must stay coherent)
+        if rng.random() < 0.5:
+            for f in spec["infos"]:
+                if f["number"] in "RA" and f["type"] in ("Integer", "Float") and rng.random() < 0.7:
+                    r = rng.choice(spec["records"])
+                    extra = widest + 1 + rng.choice([1, 2])
+                    r["info"][f["id"]] = ([rng.randrange(50) for _ in range(extra)] if f["type"] == "Integer"
+                                          else [rng.choice(vcfgen.FLOAT_POOL[:6]) for _ in range(extra)])
+            for f in spec["formats"]:
+                if f["number"] in "RA" and f["type"] == "Integer" and rng.random() < 0.7:
+                    cands = [r for r in spec["records"] if f["id"] in (r.get("format") or [])]
+                    if cands:
+                        r = rng.choice(cands)
+                        for s_ in r["samples"]:
+                            s_[f["id"]] = [rng.randrange(50) for _ in range(widest + 1 + rng.choice([1, 2]))]
     return spec
 
 
